@@ -259,4 +259,54 @@ pub mod kernels {
         }
         Ok(domain.compute_vanishing_poly_over_coset(poly_degree).evals)
     }
+
+    /// `util::batch_inversion`
+    pub fn batch_inversion(values: &mut [BlsScalar]) {
+        crate::util::batch_inversion(values)
+    }
+
+    fn poly(coeffs: &[BlsScalar]) -> crate::fft::Polynomial {
+        crate::fft::Polynomial::from_coefficients_vec(coeffs.to_vec())
+    }
+
+    /// `&Polynomial + &Polynomial`
+    pub fn poly_add(a: &[BlsScalar], b: &[BlsScalar]) -> Vec<BlsScalar> {
+        (&poly(a) + &poly(b)).to_vec()
+    }
+
+    /// `&Polynomial - &Polynomial`
+    pub fn poly_sub(a: &[BlsScalar], b: &[BlsScalar]) -> Vec<BlsScalar> {
+        (&poly(a) - &poly(b)).to_vec()
+    }
+
+    /// `Polynomial += (scalar, &Polynomial)`
+    pub fn poly_add_assign_scaled(
+        a: &[BlsScalar],
+        s: BlsScalar,
+        b: &[BlsScalar],
+    ) -> Vec<BlsScalar> {
+        let mut a = poly(a);
+        a += (s, &poly(b));
+        a.to_vec()
+    }
+
+    /// `&Polynomial * &Polynomial`
+    pub fn poly_mul(a: &[BlsScalar], b: &[BlsScalar]) -> Vec<BlsScalar> {
+        (&poly(a) * &poly(b)).to_vec()
+    }
+
+    /// `&Polynomial * &BlsScalar`
+    pub fn poly_scale(a: &[BlsScalar], s: &BlsScalar) -> Vec<BlsScalar> {
+        (&poly(a) * s).to_vec()
+    }
+
+    /// `Polynomial::evaluate`
+    pub fn poly_evaluate(a: &[BlsScalar], x: &BlsScalar) -> BlsScalar {
+        poly(a).evaluate(x)
+    }
+
+    /// `Polynomial::ruffini`
+    pub fn poly_ruffini(a: &[BlsScalar], z: BlsScalar) -> Vec<BlsScalar> {
+        poly(a).ruffini(z).to_vec()
+    }
 }
